@@ -31,6 +31,11 @@ def run(ctx):
         f1 = rnd.sample(f1, 60)
     agg = run_family("C04stmts", f1, NAMES, dev=dev, invariants=INVS, perms=(0,), timeout=3000)
     ctx.add_family(agg)
+    # expression shapes inside the surroundings the machine models (macro body, slot filler, named block, on-error, ...)
+    per = 6 if quick else 40
+    cprogs = F.in_contexts(progs, per, rnd)
+    agg = run_family("C04ctx", cprogs, NAMES + ["z", "macroname"], dev=dev, invariants=INVS, perms=(0,), timeout=3000)
+    ctx.add_family(agg)
     ctx.exhaustive = True
     ctx.rule = ("expression shapes (call, pipes of length 2-4, not:, exists:, string:, nestings, pipe with prefixed "
                 "alternative, undefined name, builtin name, attribute access with item fallback, 8 wrapper forms "
